@@ -3,15 +3,21 @@ REGP_LIB = runpy.run_path(os.path.join(os.path.dirname(os.path.abspath(__file__)
 CHECK = {
     "level": "fault_enumeration",
     "technique": "exhaustive enumeration of frame lengths, read sizes, allocation-failure scripts, stream mutations and endpoint-error positions through the real regp_recv/regp_process/regp_free under ASan+UBSan with exact-size allocator blocks, an allocation ledger and budgeted scripted endpoints",
-    "rule": "a case is one point (or one small block) of a fault family: frame length x block size; read size x block size; allocation script; substitution position (x 13 octets x allocation); truncation set; string chunk; error position (x code x allocation x mutation); every case runs at least one receive/process/free round against the real code, all are non-trivial",
+    "rule": "a case is one point (or one small block) of a fault family: frame length x block size x transport variant; read size x block size x request header variant; allocation script; substitution position (x 13 octets x allocation); truncation set; string chunk; error position (x code x allocation x mutation); every case runs at least one receive/process/free round against the real code, all are non-trivial",
     "assumptions": ["block sizes from the stated set; the quantifier's 'random / coverage-guided streams' are replaced by the exhaustive families i..vi",
                     "for receive blocks that cannot hold a 16-octet header the form of the overflow reply is not demanded (the header needed to echo sequence and address was never stored); memory safety and the ledger are",
-                    "read sizes that fit the block but not behind the request header may be executed or answered with a transmit-overflow response (never an overflowing write); the buffer size in that response is accepted as block size, block size minus descriptor, or that minus the request header",
+                    "a read whose data fits the block behind the request's header but not together with a full 16-octet response header may be executed or answered with a transmit-overflow response; one that does not fit behind the request's header (12, 14 or 16 octets as received) must be refused without access; the buffer size in that response is accepted as block size, block size minus descriptor, or that minus the request header",
+                    "read requests that declare checksum words their transport does not mandate (incl. a payload checksum without payload) may be refused by the receiver; if executed the same size rule applies",
+                    "a channel error of the source must make regp_recv return a negative value (which one is not demanded); how a failing sink is reported is not demanded (memory safety, no hang and the ledger are)",
+                    "a frame shorter than a header is reported through error.id == EBADMSG plus the header-encoding meta message; regp_recv may additionally return a negative value",
+                    "after regp_recv returned a channel error a caller may still pass the (reused) RPMaybeFrame to regp_process, as the documented service loop does",
+                    "the allocator serves requests of any size and up to 8 live blocks; only unbalanced, double or foreign frees count",
                     "allocation failure is only generated for request frames"],
     "harnesses": [{
         "name": "c09_memsafe", "src": "harness/c09_memsafe.c", "shape": "espace", "opt": "-O1",
         "lib": REGP_LIB, "min_outcomes": 12,
         "require_outcomes": {"any": ["fits-executed", "overflow-answered", "overflow-tiny-block", "read-executed", "tx-overflow", "alloc-mixed", "alloc-all-fail",
-                                     "mutation-some-executed", "mutation-none-executed", "truncations", "short-frames", "two-frames", "tcp-prefix", "short-strings", "source-errors", "sink-errors"]},
+                                     "mutation-some-executed", "mutation-none-executed", "truncations", "short-frames", "two-frames", "tcp-prefix", "short-strings", "source-errors", "sink-errors",
+                                     "read-variant-executed", "stale-frame-not-reused"]},
     }],
 }
